@@ -26,6 +26,8 @@ const (
 	AddComment              // add a comment to the n-th declaration
 	SwapDecls               // swap two non-import declarations
 	RemoveUses              // make every use of one package local (its import must then go)
+	DropImportSpec          // hand-edit: delete the n-th import spec from its declaration (File.Imports is left as it was)
+	AddImportSpec           // hand-edit: append an import spec to the first import declaration (File.Imports is left as it was)
 	NumKinds
 )
 
@@ -38,7 +40,7 @@ type Edit struct {
 }
 
 func (e Edit) String() string {
-	names := [...]string{"AddUse", "AddCall", "RemoveDecl", "Repath", "Unpath", "AddComment", "SwapDecls", "RemoveUses"}
+	names := [...]string{"AddUse", "AddCall", "RemoveDecl", "Repath", "Unpath", "AddComment", "SwapDecls", "RemoveUses", "DropImportSpec", "AddImportSpec"}
 	return fmt.Sprintf("%s(n=%d,m=%d,path=%q,name=%q)", names[e.Kind], e.N, e.M, e.Path, e.Name)
 }
 
@@ -155,6 +157,40 @@ func apply(f *dst.File, e Edit) {
 		}
 		i, j := idx[e.N%len(idx)], idx[e.M%len(idx)]
 		f.Decls[i], f.Decls[j] = f.Decls[j], f.Decls[i]
+	case DropImportSpec, AddImportSpec:
+		var blocks []*dst.GenDecl
+		for _, d := range f.Decls {
+			if gd, ok := d.(*dst.GenDecl); ok && gd.Tok == token.IMPORT {
+				blocks = append(blocks, gd)
+			}
+		}
+		if len(blocks) == 0 {
+			return
+		}
+		if e.Kind == AddImportSpec {
+			gd := blocks[0]
+			if len(gd.Specs) == 1 && gd.Specs[0].(*dst.ImportSpec).Path.Value == `"C"` {
+				return
+			}
+			for _, b := range blocks {
+				for _, sp := range b.Specs {
+					if sp.(*dst.ImportSpec).Path.Value == fmt.Sprintf("%q", e.Path) {
+						return
+					}
+				}
+			}
+			is := &dst.ImportSpec{Path: &dst.BasicLit{Kind: token.STRING, Value: fmt.Sprintf("%q", e.Path)}}
+			is.Decs.Before, is.Decs.After = dst.NewLine, dst.NewLine
+			gd.Specs = append(gd.Specs, is)
+			gd.Lparen, gd.Rparen = true, true
+			return
+		}
+		gd := blocks[e.N%len(blocks)]
+		if len(gd.Specs) < 2 {
+			return
+		}
+		i := e.M % len(gd.Specs)
+		gd.Specs = append(gd.Specs[:i:i], gd.Specs[i+1:]...)
 	case RemoveUses:
 		ids := remoteIdents(f)
 		if len(ids) == 0 {
